@@ -6,7 +6,7 @@ LEVEL = "proof"
 LEAN_MODULES = ["MpirProofs.Props.C15"]
 THEOREMS = ["Mpir.Threads.interleaving_irrelevant", "Mpir.Gen.no_undocumented_shared_state"]
 GEN = [gen_globals.gen_globals]
-TRUSTED = ["tools/gen_globals.py: nm + objdump relocation scan of libmpir.a built from the working tree (direct stores through PC-relative relocations; indirect writes through escaped pointers are only reported as address-taken counts)",
+TRUSTED = ["tools/gen_globals.py: objdump (-h/-t/-dr/-r) scan of libmpir.a built from the working tree: objects of every ALLOC, non-READONLY section incl. local symbols; stores / loads / address-taken per instruction through PC-relative, GOT and absolute relocations, attributed to the containing function; direct-call graph (indirect writes through escaped pointers: part c15_globals, source side)",
            "ThreadSanitizer (gcc -fsanitize=thread) on sampled schedules"]
 ASSUMPTIONS = ["the footprint model: a reentrant operation writes only its own destination objects and temporaries; discharged by the regenerated global-store scan, not by a proof about the C",
                "real schedules are covered by the static absence of shared writes plus sampled TSan runs"]
@@ -15,8 +15,10 @@ RULE = ("threads N seed nops: N in 2..8 threads each run a seeded list of 40 kin
         "sequential run of the same lists; the same ops run on a -fsanitize=thread build; distinct = distinct (N, seed, nops)")
 LEVEL_TEXT = ("Lean theorem: in the footprint model every interleaving of the threads' operation lists leaves each thread with exactly the result of running its own list alone (induction over the schedule); "
               "the footprint obligation is discharged from a scan, regenerated on every run, of every static-storage object of the library built from the working tree and of every instruction that stores to it: "
-              "the stored-to objects must be exactly the documented shared state (kernel-checked by decide). Seeded multi-threaded op lists run on a plain and on a ThreadSanitizer build and are compared with their sequential results.")
-LEVEL_NOTE = "Real schedules beyond the sampled TSan runs are covered only through the static scan; indirect writes through escaped pointers are approximated (address-taken counts are recorded, not proved harmless)."
+              "the stored-to objects must be exactly the documented shared state (kernel-checked by decide); the functions that write each documented cell must be exactly the documented setters, and histories that do not write a cell another thread uses are schedule-independent in the cell model (interleaving_irrelevant_cells). Seeded multi-threaded op lists run on a plain and on a ThreadSanitizer build and are compared with their sequential results.")
+LEVEL_NOTE = ("Real schedules beyond the sampled TSan runs are covered only through the static scan. Indirect writes: every source occurrence of every writable static is classified from the clang AST "
+              "(escaped_statics_harmless: undocumented, non-constant statics are only loaded, compared, or passed to pointer-to-const parameters; local pointer aliases are followed); pointer-to-const parameters are followed into "
+              "callees defined in the library); not followed: function-pointer calls and libc callees (prototype trusted).")
 
 def gen_ops(rng, tier, ctx=None):
     n = 6 if tier == "quick" else 40
